@@ -87,8 +87,13 @@ func runC18(c *Ctx) {
 		}
 		// one addition per round: after the attempt the loop is left on every path
 		for _, s := range u.Match(add) {
+			// (either the addition is in no loop at all, or its loop is left after the first attempt; in the graph: the
+			// store cannot reach itself)
 			lp := loopOf(u, s)
-			ok := lp != nil && endsWithBreak(lp.Body)
+			ok := lp == nil || endsWithBreak(lp.Body)
+			if !ok {
+				ok = !reaches(u, s, s)
+			}
 			r.Check("C18-G3", u.Name+": at most one replica is added per round (the allocation loop exits after the first attempt)", u.Pos(s.Pos), ok, "")
 		}
 		r.Follow("C18-G1", u, up, []an.M{an.StoreTerm("*p0")}, an.FollowOpts{FromSuccess: an.NilErr, Min: 1})
